@@ -65,6 +65,11 @@ def cases(ctx):
     for j, (k, copies) in enumerate(many):
         if j % ctx.nshards == ctx.shard:
             yield 'climany', {'k': k, 'copies': copies}
+    # connected graphs whose connection is long or wide (chains, rings, stars, grids of thousands of nodes):
+    # nothing is unreachable
+    for j, shape in enumerate(['chain', 'ring', 'star', 'ladder', 'backchain', 'dense']):
+        if j % ctx.nshards == ctx.shard:
+            yield 'bigshape', {'shape': shape, 'n': 1500 if q else 6000}
     ctx.new_phase()
     for i in range(n):
         if not ctx.time_left():
@@ -178,6 +183,40 @@ def oracle(ctx, kind, p):
                         'reference_report': {repr(k): v for k, v in exp.items()}})
     elif kind == 'cli':
         run_cli_case(ctx, p)
+    elif kind == 'bigshape':
+        n, shape = p['n'], p['shape']
+        vs = [f'v{i}' for i in range(n)]
+        rng = ctx.rng('bigshape', shape)
+        if shape == 'chain':
+            edges = [(vs[i], ':ARG0', vs[i + 1]) for i in range(n - 1)]
+        elif shape == 'backchain':
+            edges = [(vs[i + 1], ':ARG1', vs[i]) for i in range(n - 1)]       # every edge points towards the top
+        elif shape == 'ring':
+            edges = [(vs[i], ':ARG0', vs[(i + 1) % n]) for i in range(n)]
+        elif shape == 'star':
+            edges = [(vs[0], ':op%d' % i, vs[i]) for i in range(1, n)]
+        elif shape == 'ladder':
+            edges = [(vs[i], ':ARG0', vs[i + 2]) for i in range(n - 2)] + [(vs[0], ':ARG1', vs[1])]
+        else:
+            vs = vs[:60]
+            n = 60
+            edges = sorted({(rng.choice(vs), rng.choice([':ARG0', ':ARG1', ':mod']), rng.choice(vs)) for _ in range(400)})
+            edges += [(vs[i], ':ARG2', vs[i + 1]) for i in range(n - 1)]
+        triples = [(v, ':instance', 'thing') for v in vs] + edges
+        for order in ('given', 'shuffled'):
+            if order == 'shuffled':
+                rng.shuffle(triples)
+            _, model, rm, _ = M.get('amr')
+            g = Graph(triples, top=vs[0])
+            ok, e = ctx.call(model.errors, g, clause='errors(big shape)')
+            ctx.count('errors_calls')
+            ctx.count('big_shapes')
+            if ok and e:
+                kinds = sorted({m_ for v_ in e.values() for m_ in v_})
+                ctx.fail('errors!=reference', mech='big-shape:' + '/'.join(kinds)[:40],
+                         detail={'shape': shape, 'nodes': n, 'order': order, 'reported': len(e),
+                                 'first': repr(list(e.items())[:2])[:300]})
+        ctx.case(p, True)
     elif kind == 'climany':
         k, copies = p['k'], p['copies']
         one = '(a / alpha ' + ' '.join(f':attr{j} {j}' for j in range(k)) + ')'
